@@ -157,6 +157,33 @@ void vf_string_map_toupper(vf_string *s)
   }
 }
 
+void vf_string_clear(vf_string *s)
+{
+  s->size = 0;
+  s->data[0] = 0;
+}
+
+size_t vf_string_find_last_not_of_char(const vf_string *s, char c)
+{
+  size_t i = s->size;
+  while (i > 0) {
+    if (s->data[i - 1] != c)
+      return i - 1;
+    --i;
+  }
+  return VF_NPOS;
+}
+
+void vf_string_erase_from(vf_string *s, size_t pos)
+{
+  if (pos > s->size) {
+    vf_exc = VF_EXC_out_of_range;
+    return;
+  }
+  s->size = pos;
+  s->data[pos] = 0;
+}
+
 /* ---------------- std::stringstream */
 void vf_sstream_ctor(vf_sstream *ss) { vf_string_ctor(&ss->s); }
 
